@@ -44,3 +44,7 @@ func (c *InternedStringCodec) VerifTable() map[string]string {
 	p := atomic.LoadPointer(&c.strings)
 	return *(*map[string]string)((unsafe.Pointer)(&p))
 }
+
+// VerifEntriesPresent exposes entriesPresent: the room a counted slice, map or
+// JSON array asks for when its body is data and its count is max.
+func VerifEntriesPresent(data []byte, max uint64) int { return entriesPresent(data, max) }
